@@ -16,3 +16,20 @@ package config
 //@   requires config != nil
 //@   ensures res == felixNoEncap(config.ProgramClusterRoutes)
 //@   assigns nothing
+
+//@ -- ---------------------------------------------------------------- C27: resolution by source priority
+//@ -- which sources are local to this node (the statement's "local-only parameters accepted only from local sources")
+//@ func (Source).Local
+//@   property C27
+//@   ensures res == (source == Default || source == ConfigFile || source == EnvironmentVariable || source == InternalOverride)
+//@   assigns nothing
+
+//@ -- Shadowing: a value from a lower-priority source than the one that already supplied the parameter has no
+//@ -- effect - in particular it can neither set the field, nor abort resolution with an error.  Checked at the
+//@ -- three places where an iteration has an effect: the two error exits and the field store.
+//@ func (*Config).resolve
+//@   property C27
+//@   option safety off
+//@   ghost at call logrus.Errorf: check source >= currentSource
+//@   ghost at call logrus.Entry).Error: check source >= currentSource
+//@   ghost at call (reflect.Value).Set: check source >= currentSource
